@@ -20,15 +20,15 @@ import (
 // its own file. Offline checker over the fake endpoint's request log.
 
 type c16Cfg struct {
-	name     string
-	hosts    []string // as written in the connection string
-	srv      bool
-	extra    bool
-	members  int
-	lines    []int // lines per host
-	window   [2]int
-	flags    []string
-	auth     string
+	name    string
+	hosts   []string // as written in the connection string
+	srv     bool
+	extra   bool
+	members int
+	lines   []int // lines per host
+	window  [2]int
+	flags   []string
+	auth    string
 }
 
 var c16HostSets = [][]string{
